@@ -172,6 +172,19 @@ def run(rep, tier):
             continue
         if r.random() < 0.3 and segm.nlabels > 1:      # label gaps
             segm.remove_label(int(r.choice(list(segm.labels))))
+        elif r.random() < 0.35 and segm.nlabels > 1:
+            # every source kept, labels spread with gaps (new child labels must not run into a surviving higher label)
+            from photutils.segmentation import SegmentationImage
+            k_ = segm.nlabels
+            lut = np.zeros(k_ + 1, dtype=segm.data.dtype)
+            lut[1:] = sorted(r.sample(range(1, k_ + 3), k_))
+            segm = SegmentationImage(lut[segm.data])
+        if r.random() < 0.15:
+            # narrow integer dtype whose range ends at the top label: new child labels do not fit (must be widened, never wrapped)
+            from photutils.segmentation import SegmentationImage
+            d8 = segm.data.astype(np.uint8)
+            d8[d8 == int(segm.max_label)] = 255
+            segm = SegmentationImage(d8)
         nonpos = segm.nlabels >= 2 and r.random() < 0.45
         if nonpos:
             # a parent with non-positive pixels (data measured against a different background than the detection image):
@@ -229,6 +242,20 @@ def run(rep, tier):
                          'nlabels_in': len(labs_all), 'nlabels_out': int(ser.nlabels)})
         if not ok:
             continue
+        # gaps: deblend everything but the top-labelled segment, keeping the labels (children must not collide with that segment)
+        if not np.array_equal(np.asarray(segm.labels), np.arange(1, segm.nlabels + 1)) and segm.nlabels > 1:
+            p3 = dict(params, relabel=False, contrast=0.001, nlevels=32)
+            la3 = [int(v) for v in segm.labels[:-1]]
+            with warnings.catch_warnings():
+                warnings.simplefilter('ignore')
+                try:
+                    out3 = deblend_sources(img, segm, labels=la3, nproc=1, progress_bar=False, **p3)
+                except Exception as e:                          # noqa: BLE001
+                    rep.violation(f'deblend-raises:{type(e).__name__}', f'deblend_sources raised {e!r}', dict(replay, params=p3, labels=la3))
+                    continue
+            rep.count('gap-collision-probe')
+            if not check_output(rep, img, segm, out3, p3, la3, {}, dict(replay, params=p3, labels=la3)):
+                continue
         # relabel=True must give labels 1..N also when nothing is split (input with label gaps, very high contrast)
         if not np.array_equal(np.asarray(segm.labels), np.arange(1, segm.nlabels + 1)):
             p2 = dict(params, contrast=0.999, relabel=True)
